@@ -94,6 +94,40 @@ def m_path_ident(c):
     return v
 
 
+def _suffix_key(st, suffix):
+    """stable text for a path component: literal text, or - for a format! string - its rendered arguments"""
+    if not isinstance(suffix, Str):
+        return '?'
+    if suffix.text is not None:
+        return suffix.text
+    if suffix.parts is not None:
+        out = []
+        for _, v in suffix.parts[1]:
+            v = deref(st, v)
+            if isinstance(v, Str):
+                out.append(_suffix_key(st, v))
+            elif isinstance(v, Int):
+                out.append(str(z3.simplify(v.v)))
+            else:
+                out.append(type(v).__name__)
+        return 'fmt(' + ','.join(out) + ')'
+    return str(z3.simplify(suffix.id))
+
+
+@model('Path::file_name')
+def m_path_file_name(c):
+    k = path_key(c.st, c.args[0])
+    return some(new_cell_ptr(Str(text=str(k).split('/')[-1])), 'Option<&OsStr>')
+
+
+@model('OsStr::to_string_lossy', 'OsStr::to_str', 'Path::to_string_lossy', 'Path::display')
+def m_osstr_lossy(c):
+    v = deref(c.st, c.args[0])
+    if c.canon.endswith('to_str'):
+        return some(v, 'Option<&str>')
+    return v
+
+
 @model('Path::exists', 'Path::is_file')
 def m_path_exists(c):
     return z3.BoolVal(path_key(c.st, c.args[0]) in fs(c.st))
@@ -103,7 +137,7 @@ def m_path_exists(c):
 def m_path_derive(c):
     base = path_key(c.st, c.args[0])
     suffix = deref(c.st, c.args[1])
-    sk = suffix.text if isinstance(suffix, Str) and suffix.text is not None else str(z3.simplify(suffix.id)) if isinstance(suffix, Str) else '?'
+    sk = _suffix_key(c.st, suffix)
     return Str(text=f'{base}/{c.canon.split("::")[-1]}/{sk}')
 
 
@@ -236,6 +270,9 @@ def m_bufw_get_ref(c):
 
 
 def file_write(h, items):
+    if not h.append and h.pos > len(h.f.data):
+        # writing past the end of a (shrunk) file leaves a hole that reads back as zero bytes
+        h.f.data.extend(Int(z3.BitVecVal(0, 8), False) for _ in range(h.pos - len(h.f.data)))
     if h.append or h.pos >= len(h.f.data):
         h.f.data.extend(items)
         h.pos = len(h.f.data)
